@@ -597,7 +597,10 @@ class Watcher(object):
         # when an on_demand process dies, do not restart it until
         # the next event
         if self.pending_socket_event:
-            self._status = "stopped"
+            # (a watcher that still has processes is not stopped: they would
+            # never be stopped, reaped or replaced again)
+            if not self.processes:
+                self._status = "stopped"
             return
         for i in self._found_wids:
             self.spawn_process(i)
